@@ -1,6 +1,7 @@
 package props
 
 import (
+	"bufio"
 	"bytes"
 	"fmt"
 	"hash/crc32"
@@ -473,6 +474,10 @@ func c02Body(r *vlib.Run) int {
 		free <- s
 	}
 	_ = poolMu
+	var silence sync.WaitGroup
+	silence.Add(1)
+	go func() { defer silence.Done(); c02Silence(r) }()
+	defer silence.Wait()
 	vlib.Parallel(len(cases), 12, func(i int) {
 		c := cases[i]
 		c02Run(r, i, c, cfgs, free)
@@ -481,6 +486,78 @@ func c02Body(r *vlib.Run) int {
 		}
 	})
 	return n / 2
+}
+
+// c02Silence: grep sessions in which nothing is selected for seconds while the read goes on: a file of a few hundred
+// megabytes whose selected lines are its first lines and its last lines only. Nothing travels towards the client during
+// the scan; the session must neither end early nor lose the lines selected at the end (serverless and over SSH).
+func c02Silence(r *vlib.Run) {
+	dir := r.Dir("c02silence")
+	defer os.RemoveAll(dir)
+	path := filepath.Join(dir, "f00.log")
+	f, err := os.Create(path)
+	if err != nil {
+		r.Inconclusive("silence-file")
+		return
+	}
+	lines := 990000 // (sequence numbers have six digits) ~350 / ~550 bytes each: 3-6 s of scanning on an idle core
+	padBase := r.N(320, 520)
+	w := bufio.NewWriterSize(f, 1<<20)
+	var want []int
+	for s := 1; s <= lines; s++ {
+		hit := s <= 3 || s > lines-3
+		if hit {
+			want = append(want, s)
+		}
+		w.WriteString(c02Line(0, s, hit, padBase+(s*13)%30))
+		w.WriteByte('\n')
+	}
+	w.Flush()
+	f.Close()
+	fl, err := startFleet(r, "c02quiet", 1, map[string]interface{}{"MaxConcurrentCats": 2, "MaxConnections": 20}, nil, "error")
+	if err == nil {
+		defer fl.Stop()
+	}
+	type run struct {
+		name string
+		ssh  bool
+	}
+	runs := []run{{"serverless", false}, {"ssh", true}}
+	if r.Thorough() {
+		runs = append(runs, run{"serverless-2", false}, run{"ssh-2", true})
+	}
+	vlib.Parallel(len(runs), 2, func(k int) {
+		ru := runs[k]
+		args := []string{"--plain", "--files", path, "--regex", "#hit"}
+		var res *vlib.Result
+		var out []byte
+		start := time.Now()
+		if ru.ssh {
+			if fl == nil {
+				r.Inconclusive("fleet-start")
+				return
+			}
+			full := append(append(fl.ClientArgs(), "--logger", "stdout", "--logLevel", "error"), args...)
+			res, out = runPaced(vlib.Cmd{Path: r.Bin("dgrep"), Args: full, Env: fl.ClientEnv(), Dir: fl.Home, Watchdog: 240 * time.Second}, pacing{Kind: "fast"}, 65536)
+		} else {
+			home := serverlessHome(r)
+			full := append([]string{"--cfg", "none", "--logger", "stdout", "--logLevel", "error"}, args...)
+			res, out = runPaced(vlib.Cmd{Path: r.Bin("dgrep"), Args: full, Env: []string{"HOME=" + home}, Dir: home, Watchdog: 240 * time.Second}, pacing{Kind: "fast"}, 65536)
+		}
+		r.Eval("silence|" + ru.name)
+		r.Count("sessions_with_seconds_of_silence_while_the_read_goes_on", 1)
+		r.Max("silent_session_longest_wall_ms", int(time.Since(start).Milliseconds()))
+		if res.TimedOut {
+			r.Inconclusive("dgrep-watchdog")
+			return
+		}
+		obs := c02Parse(out, nil)
+		got := obs.perFile[0]
+		if res.Exit != 0 || res.Hung || len(obs.malformed) > 0 || obs.cutTail || !equalInts(got, want) {
+			r.Violation("lines-lost-duplicated-or-reordered", map[string]interface{}{"scenario": "grep over " + fmt.Sprint(lines) + " lines of which only the first three and the last three are selected (" + ru.name + ")",
+				"exit": res.Exit, "hung": res.Hung, "selected": want, "delivered": got, "damaged_records": len(obs.malformed), "stderr": vlib.Trunc(string(res.Stderr), 800)})
+		}
+	})
 }
 
 func c02Run(r *vlib.Run, i int, c *c02Case, cfgs map[int]string, free chan *c02Server) {
